@@ -107,6 +107,20 @@ pub fn spec(args: &[String]) -> i32 {
         }
         // ---------- deromanisers ----------
         // (typed text, alias right-hand side): the alias makes `fresh` behave as the typed text
+        // multi-segment right-hand sides, inserted as a syllable of their own
+        if g.rng.chance(1, 4) {
+            let (typed, rhs) = [("aːn", "a:[+long]n"), ("sːːta", "s:[+overlong]ta"), ("ʃa", "ʃa"), ("taːː", "ta:[+overlong]"), ("naːti", "na:[+long]ti"), ("iːsːu", "i:[+long]s:[+long]u")][g.rng.below(6)];
+            let fresh = FRESH[g.rng.below(5)];
+            let into = vec![format!("{fresh} > {rhs}")];
+            let place = |w: &String, x: &str| -> String { if w.len() % 2 == 0 { format!("{x}.{w}") } else { format!("{w}.{x}") } };
+            let plain: Vec<String> = words.iter().map(|w| place(w, typed)).collect();
+            let encoded: Vec<String> = words.iter().map(|w| place(w, fresh)).collect();
+            let a = guarded(|| asca::run(&groups, &encoded, &into, &[]));
+            let b = guarded(|| asca::run(&groups, &plain, &[], &[]));
+            st.inc("c15.cases"); st.inc("c15.deromaniser_cases"); st.inc("c15.deromaniser.multi_segment");
+            let same = match (&a, &b) { (Out::Ok(x), Out::Ok(y)) => x == y, (Out::Err(x), Out::Err(y)) => err_kind(x) == err_kind(y), (Out::Panic(_), Out::Panic(_)) | (Out::Hang(_), Out::Hang(_)) => true, _ => false };
+            if same { st.inc("c15.nontrivial"); } else { println!("FINDING c15-deromanise-differs into={into:?} rules={rules:?} encoded={encoded:?} plain={plain:?} got={:?} want={:?}", a, b); }
+        }
         let variants: [(&str, &str, bool); 10] = [("ʃ", "ʃ", false), ("ŋ", "ŋ", false), ("t͡s", "t͡s", false), ("a", "a", false), ("kʷ", "kʷ", false), ("ə", "ə", false),
             ("aː", "a:[+long]", false), ("ʃː", "ʃ:[+long]", false), ("ã", "[+nasal]", true), ("kʷ", "[+round]", true)];
         let (typed, rhs, plus) = variants[g.rng.below(10)];
